@@ -200,6 +200,7 @@ func main() {
 		os.Exit(2)
 	}
 	r := newRun(prop, tier, seed, out)
+	setLogDebug(false)
 	f(r)
 }
 
